@@ -23,7 +23,7 @@ OUT = os.path.join(HERE, "automut_results.json")
 ENV = dict(os.environ, PYTHONDONTWRITEBYTECODE="1")
 
 FILES = {
-    "bitcoin/core/serialize.py": ["C01", "C17", "C02"],
+    "bitcoin/core/serialize.py": ["C01", "C17", "C02", "C18"],
     "bitcoin/core/__init__.py": ["C01", "C16", "C15", "C02", "C09", "C17"],
     "bitcoin/core/script.py": ["C08", "C03", "C04", "C06"],
     "bitcoin/core/scripteval.py": ["C06", "C07", "C05"],
